@@ -40,6 +40,8 @@ def render_defs(case):
         lines.append("%s !" % n if u["k"] == "base" else "%s %d" % (n, u["v"]))
     for p in case["prefixes"]:
         lines.append("%s%s %d" % (s_of(p["name"]), "--" if p["k"] == "short" else "-", p["v"]))
+    for a in case.get("alias", []):
+        lines.append("%s %s" % (s_of(a["name"]), s_of(a["t"])))
     return "\n".join(lines) + "\n"
 
 
@@ -69,8 +71,9 @@ def flat(obs):
 
 def intended_registry(case):
     base = sorted(s_of(u["name"]) for u in case["units"] if u["k"] == "base")
-    units = {s_of(u["name"]): u["v"] for u in case["units"] if u["k"] == "const"}
-    units.update({s_of(p["name"]): p["v"] for p in case["prefixes"] if p["k"] == "long"})
+    units = {s_of(u["name"]): (u["v"], "") for u in case["units"] if u["k"] == "const"}
+    units.update({s_of(p["name"]): (p["v"], "") for p in case["prefixes"] if p["k"] == "long"})
+    units.update({s_of(a["name"]): (a["den"]["v"], s_of(a["den"]["d"])) for a in case.get("alias", [])})
     prefixes = sorted((s_of(p["name"]), p["v"]) for p in case["prefixes"])
     return base, units, prefixes
 
@@ -79,8 +82,7 @@ def observed_registry(reg):
     base = sorted(s_of(b) for b in reg["base"])
     units = {}
     for u in reg["units"]:
-        f = flat(u["val"])
-        units[s_of(u["name"])] = f[0] if f and f[1] == "" else None
+        units[s_of(u["name"])] = flat(u["val"])
     prefixes = []
     for p in reg["prefixes"]:
         v = p["v"]
@@ -130,9 +132,11 @@ def leg_small(run, cfg, workers, shards, coverage=False, timeout=2400):
         if never:
             raise vlib.ToolError("vacuity gate: actions never taken in %s: %s" % (cfg, never))
     cases = vlib.tagged_json(r, "CASE")
-    kinds = {u["k"] for c in cases for u in c["units"]} | {p["k"] for c in cases for p in c["prefixes"]}
-    if kinds != {"base", "const", "short", "long"}:
-        raise vlib.ToolError("vacuity gate: %s generated only the kinds %s" % (cfg, sorted(kinds)))
+    kinds_seen = {u["k"] for c in cases for u in c["units"]} | {p["k"] for c in cases for p in c["prefixes"]}
+    if "alias" in cfg and not any(c.get("alias") for c in cases):
+        raise vlib.ToolError("vacuity gate: %s generated no alias" % cfg)
+    if kinds_seen != {"base", "const", "short", "long"}:
+        raise vlib.ToolError("vacuity gate: %s generated only the kinds %s" % (cfg, sorted(kinds_seen)))
     if len(cases) != r.distinct:
         raise vlib.ToolError("%s: %d cases printed for %d databases" % (cfg, len(cases), r.distinct))
     qs = queries()
@@ -269,11 +273,22 @@ def leg_bundled(run, dump, envp, names, shards, label):
 
 
 def selfcheck(run, dump, envp):
-    """the binding is not vacuous: corrupted observations must be rejected by Trace_Names, and by the replay comparer"""
-    res = resolve_bundled(["kilometers", "mm", "min"], 1, tag="c07self")
+    """the binding is not vacuous: corrupted observations must be rejected by Trace_Names"""
+    names = ["kilometers", "mm", "min"]
+    res = resolve_bundled(names, 1, tag="c07self")
+    if any("crash" in r for r in res):
+        return          # a crash is reported by the bundled leg (all three names are part of it)
     evs = [event_of(r) for r in res]
-    if any("l" not in e or "canon" not in e for e in evs):
-        raise vlib.ToolError("self-check: kilometers / mm / min do not resolve on the bundled database")
+    verdicts, _ = regkit.judge(evs, "Trace_Names", envp, shards=1, tag="c07selfj0")
+    rej = {i: [d for t, d in v if t == "REJECT"] for i, v in verdicts.items()}
+    if any(rej.get(i) for i in range(3)) or any("l" not in e or "canon" not in e for e in evs):
+        # the code under test resolves these three names wrongly: that is a finding, not a tool failure
+        for i in range(3):
+            for what in rej.get(i, []):
+                run.violation({"engine": "bundled", "name": names[i], "what": what.strip('"'), "canon": None, "canon_resolves": "cl" in evs[i]},
+                              "lookup(name) is a member of Resolve(db, name); canonicalising keeps the denotation", res[i], "bundled")
+        run.note("selfcheck_corrupted_observations_rejected", "skipped: the genuine observations are already rejected")
+        return
     bad1 = json.loads(json.dumps(evs[0]))
     bad1["l"]["v"]["n"]["mag"][0] += 1                      # a wrong value
     bad2 = json.loads(json.dumps(evs[1]))
@@ -283,11 +298,9 @@ def selfcheck(run, dump, envp):
     bad3["l"] = evs[1]["l"]                                 # `min` read as something that is not the exact unit
     bad4 = json.loads(json.dumps(evs[0]))
     del bad4["l"]                                           # None for a name that resolves
-    verdicts, _ = regkit.judge(evs + [bad1, bad2, bad3, bad4], "Trace_Names", envp, shards=1, tag="c07selfj")
+    verdicts, _ = regkit.judge([bad1, bad2, bad3, bad4], "Trace_Names", envp, shards=1, tag="c07selfj")
     rej = {i: [d for t, d in v if t == "REJECT"] for i, v in verdicts.items()}
-    if any(rej.get(i) for i in range(3)):
-        raise vlib.ToolError("self-check: genuine observations were rejected: %s" % rej)
-    want = {3: '"lookup"', 4: '"canon"', 5: '"lookup"', 6: '"lookup"'}
+    want = {0: '"lookup"', 1: '"canon"', 2: '"lookup"', 3: '"lookup"'}
     for i, w in want.items():
         if w not in rej.get(i, []):
             raise vlib.ToolError("self-check: corrupted observation %d was not rejected by Trace_Names (%s)" % (i, rej))
@@ -336,9 +349,9 @@ def run(tier, seed):
     ginfo = {"MC_Names_quick": info}
     mid = cases[len(cases) // 2]
     run.sample({"leg": "G", "defs": render_defs(mid), "admissible": {s_of(h["name"]): h["adm"] for h in mid["hits"][:6]}})
-    if thorough:
-        for cfg in ("MC_Names_t32", "MC_Names_t22"):
-            c2, j2, r2, info = leg_small(run, cfg, workers=8, shards=16)
+    for cfg in (("MC_Names_alias2", "MC_Names_t32", "MC_Names_t22") if thorough else ("MC_Names_alias1",)):
+        if True:
+            c2, j2, r2, info = leg_small(run, cfg, workers=8 if thorough else 4, shards=16)
             ginfo[cfg] = info
             run.sample({"leg": "G", "cfg": cfg, "defs": render_defs(c2[len(c2) // 3])})
             del c2, j2, r2
@@ -357,7 +370,7 @@ def run(tier, seed):
         maxpre = max(len(p) for p in pres)
         amb = [n for n in allnames if candidate_count(n, stems, pres, maxpre) >= 2]
         rest = rng.sample(allnames, 10000)
-        names = list(dict.fromkeys(amb + rest))
+        names = list(dict.fromkeys(["kilometers", "mm", "min"] + amb + rest))
         run.note("quick_selection", {"all_names": len(allnames), "preselected_ambiguous": len(amb), "random": len(rest)})
     vinfo = leg_bundled(run, dump, envp, names, 16 if thorough else 10, tier)
     vinfo["all_names"] = len(allnames)
